@@ -13,6 +13,7 @@ import (
 	"strings"
 	"sync"
 	"sync/atomic"
+	"time"
 
 	"github.com/tormoder/fit"
 
@@ -47,7 +48,7 @@ func registerC20() {
 		Level: "exploration",
 		Rule: "the constant table is generated at check time from the types.go of the tree under test (go/parser; constants of the generated types declared in other files of the package are included) and compiled into the checker; a case is one (type, value): " +
 			"every constant of every generated type, every remaining value of 8- and 16-bit types, and for 32-bit types all neighbours of constants, every single-bit and two-bit value, every OR / sum / difference of two named values, plus 200000 PRNG values; " +
-			"before any sequential use in the worker process, 8 goroutines make the process's first String() calls of each type at the same moment; non-trivial: String() was called and compared (named value: one of the names without the type prefix; other value: Type(n)); the value checks are repeated in a binary built with GOARCH=386 (32-bit int) when the host can run it; plus regeneration of types_string.go with the repository's own stringer (verif-tagged fitgen; six runs with GOMAXPROCS default, 1, 3, 6, 7, 12, and one with a fitgen built for GOARCH=386) compared byte for byte; plus complete fitgen runs on two bundled workbooks (one of them with -verbose) whose types_string.go must equal what the stringer step alone writes for that run's types.go; plus a value-major pass: about 500 numbers each printed through every generated type in rotation (sequentially and from four goroutines), so that what one type printed for a number cannot leak into the next type's answer",
+			"before any sequential use in the worker process, 8 goroutines make the process's first String() calls of each type at the same moment; non-trivial: String() was called and compared (named value: one of the names without the type prefix; other value: Type(n)); the value checks are repeated in a binary built with GOARCH=386 (32-bit int) when the host can run it; plus regeneration of types_string.go with the repository's own stringer (verif-tagged fitgen; six runs with GOMAXPROCS default, 1, 3, 6, 7, 12, and one with a fitgen built for GOARCH=386) compared byte for byte; plus complete fitgen runs on two bundled workbooks (one of them with -verbose) whose types_string.go must equal what the stringer step alone writes for that run's types.go, also when the command is run again into the same directory over an outdated types_string.go with a later modification time; plus a value-major pass: about 500 numbers each printed through every generated type in rotation (sequentially and from four goroutines), so that what one type printed for a number cannot leak into the next type's answer",
 		Assume:        []string{"Bool (hand-written in types_man.go, prints prefixed names by design) is reported separately and not judged by the generated-type rule"},
 		MinNontrivial: 100000,
 		WorkerProcs:   4,
@@ -386,6 +387,35 @@ func c20Tables(c *lib.Ctx) {
 			return
 		}
 		c.Count("complete_fitgen_runs_whose_string_tables_equal_the_stringer_alone", 1)
+		// round 13: the same command once more into the same directory, which now holds the
+		// outputs of the first run - except that types_string.go is an outdated table: same
+		// header, same type list, names of an older profile, and (as after a checkout or an
+		// unpacked archive) a modification time later than that of types.go. The run reports
+		// success, so the directory must again hold the tables that belong to its types.go.
+		// (only names inside the tables change: no type is called ...Invalid..., so the header
+		// line with the type list and all code stay as they were)
+		stale := bytes.Replace(fullStr, []byte("Invalid"), []byte("Unvalid"), -1)
+		if !bytes.Equal(stale, fullStr) && os.WriteFile(filepath.Join(out, "types_string.go"), stale, 0o644) == nil {
+			later := time.Now().Add(time.Hour)
+			os.Chtimes(filepath.Join(out, "types_string.go"), later, later)
+			again := exec.Command(bin, full.Args[1:]...)
+			again.Dir = wd
+			if b, err := again.CombinedOutput(); err != nil {
+				c.Violation(nil, "a second complete fitgen run into the directory of the first (%s workbook) failed: %v: %s", ver, err, tail(b, 400))
+				return
+			}
+			c.Eval()
+			second, _ := os.ReadFile(filepath.Join(out, "types_string.go"))
+			if !bytes.Equal(second, fullStr) {
+				what := "differs from both the outdated file and the tables of its types.go"
+				if bytes.Equal(second, stale) {
+					what = "is still the outdated file that was there before the run"
+				}
+				c.Violation(nil, "workbook %s: fitgen run again into a directory holding an outdated types_string.go (same type list, later modification time) reports success, but types_string.go %s", ver, what)
+				return
+			}
+			c.Count("complete_fitgen_reruns_over_an_outdated_string_table", 1)
+		}
 		os.RemoveAll(out)
 	}
 }
